@@ -11,6 +11,7 @@ import (
 	"fmt"
 	"io"
 	"io/ioutil"
+	"net"
 	"time"
 
 	"github.com/brutella/hc/crypto"
@@ -491,5 +492,68 @@ func failingSource(c *Ctx, who string) {
 				fmt.Sprintf("%d bytes", len(want)), fmt.Sprintf("%d bytes, authenticated=%v", len(pt), ok))
 		}
 		c.Count(id, true, "stream:failing-source", fmt.Sprintf("failing-source:delivered=%d", delivered))
+	}
+}
+
+// timeoutInsideFrame: a read deadline that fires while a part of a frame has arrived (net/http aborts its background
+// read that way before every request; an application sets deadlines of its own). The read reports the timeout; the
+// bytes that had arrived are not lost: what was written into the other end still comes out, whole.
+func timeoutInsideFrame(c *Ctx, who string) {
+	for i := 0; i < c.Pick(10, 120); i++ {
+		id := c.CaseID("timeout-inside-frame", i)
+		if c.Skip(id) {
+			continue
+		}
+		r := c.CaseRng("timeout-inside-frame", i)
+		var key [32]byte
+		copy(key[:], randBytes(r, 32))
+		peer := newRefControllerSession(key[:])
+		msg := randBytes(r, 1+r.Intn(2600))
+		stream := peer.Encrypt(msg)
+		var script []c07Ev
+		timeouts := 0
+		for off := 0; off < len(stream); {
+			n := 1 + r.Intn(len(stream)-off)
+			if r.Intn(2) == 0 && n > 40 {
+				n = 1 + r.Intn(40)
+			}
+			script = append(script, c07Ev{Kind: 's', B: stream[off : off+n]})
+			off += n
+			if off < len(stream) && r.Intn(2) == 0 {
+				script = append(script, c07Ev{Kind: 'i'})
+				timeouts++
+			}
+		}
+		sc := &c07Conn{script: script}
+		ctx := hap.NewContextForSecuredDevice(nil)
+		conn := hap.NewConnection(sc, ctx)
+		sec, _ := crypto.NewSecureSessionFromSharedKey(key)
+		ctx.GetSessionForConnection(sc).SetCryptographer(sec)
+		responseWritten(ctx, sc)
+		var got []byte
+		var rerr error
+		bufSize := []int{1, 333, 4096}[i%3]
+		pmsg, pan := safely(func() {
+			buf := make([]byte, bufSize)
+			for len(got) < len(msg) && !sc.blocked {
+				n, err := conn.Read(buf)
+				got = append(got, buf[:n]...)
+				if err != nil {
+					if ne, ok := err.(net.Error); ok && ne.Timeout() {
+						continue
+					}
+					rerr = err
+					return
+				}
+			}
+		})
+		in := map[string]interface{}{"message_bytes": len(msg), "segments": len(script) - timeouts, "read_deadlines_firing_inside_the_stream": timeouts, "read_buffer": bufSize}
+		if pan {
+			c.Violate(who+" reading panics when a read deadline fires inside a frame", id, in, "data", pmsg)
+		} else if rerr != nil || !bytes.Equal(got, msg) {
+			c.Violate(who+" bytes written into one end do not come out at the other when a read deadline fires while a part of a frame has arrived", id, in,
+				fmt.Sprintf("%d bytes", len(msg)), fmt.Sprintf("%d bytes, err=%v", len(got), rerr))
+		}
+		c.Count(id, timeouts > 0, "stream:timeout-inside-frame")
 	}
 }
